@@ -7,7 +7,7 @@ Require Import KV.Model.Prelude KV.Model.Condensed KV.Model.Active KV.Model.Dend
   KV.Model.Primitive KV.Model.Chain
   KV.Proofs.ShapeCheck KV.Proofs.RelabelWF KV.Proofs.Criteria KV.Proofs.CriteriaRun KV.Proofs.ChainIter
   KV.Proofs.ChainCriterion KV.Proofs.LWInvariant KV.Proofs.UpdateSpec KV.Proofs.SortProofs KV.Proofs.ChainInstances
-  KV.Proofs.RnnConfluence KV.Proofs.AgreeChain.
+  KV.Proofs.RnnConfluence KV.Proofs.AgreeChain KV.Proofs.AgreeSingle KV.Proofs.AgreeChainFinal.
 From Coq Require Import Permutation.
 From Coq Require Import QArith Qfield Field Lqa.
 
@@ -86,6 +86,59 @@ Proof.
     rewrite Hrt in H3, H4. auto.
 Qed.
 
+(* ... and the same labelled dendrogram when the returned heights are pairwise distinct *)
+Theorem selection_nnchain_primitive_same_dendrogram
+  (eqb_nlt : forall a b, f_eqb F a b = true -> f_ltb F b a = false)
+  meth s1 d1 s2 d2 (m : list T) n sp dp mp sc dc mc M0 :
+  meth = Single \/ meth = Complete ->
+  prologue p m n = Ok M0 -> 1 <= m_obs M0 ->
+  primitive_with (kops_of F meth) p meth s1 d1 m n = Ok (sp, dp, mp) ->
+  nnchain_with (kops_of F meth) p meth s2 d2 m n = Ok (sc, dc, mc) ->
+  distinct_from (kops_of F meth) (prim_iter (kops_of F meth) p meth) 0 (m_obs M0 - 1)
+    (st_reset (kops_of F meth) s1 (m_obs M0)) (d_reset d1 (m_obs M0)) M0 ->
+  distinct_from (kops_of F meth) (chain_iter (kops_of F meth) p meth) 0 (m_obs M0 - 1)
+    (st_with_chain (st_reset (kops_of F meth) s2 (m_obs M0)) []) (d_reset d2 (m_obs M0)) M0 ->
+  strictly_lt (kops_of F meth) (heights dp) ->
+  length (d_steps dp) = length (d_steps dc)
+  /\ forall i t t', nth_error (d_steps dp) i = Some t -> nth_error (d_steps dc) i = Some t' ->
+       s_c1 t = s_c1 t' /\ s_c2 t = s_c2 t' /\ s_size t = s_size t' /\ eqv (f_ltb F) (s_dis t) (s_dis t').
+Proof.
+  intros Hm HM0 Hn Hp Hc HDp HDc Hstrict.
+  assert (Hsq : square_all (kops_of F meth) m = m).
+  { unfold square_all. destruct Hm as [-> | ->]; cbn [kops_of k_sq on_squares]; apply map_id. }
+  assert (Hrt : forall x, k_rt (kops_of F meth) x = x) by (intros x; destruct Hm as [-> | ->]; reflexivity).
+  assert (Hlt : k_ltb (kops_of F meth) = f_ltb F) by (destruct Hm as [-> | ->]; reflexivity).
+  destruct (@nnchain_primitive_same_dendrogram T (kops_of F meth) p meth) with
+    (crit := sel_crit meth M0) (s1 := s1) (d1 := d1) (s2 := s2) (d2 := d2) (m := m) (n := n)
+    (sp := sp) (dp := dp) (mp := mp) (sc := sc) (dc := dc) (mc := mc) (M0 := M0) as [HL HS].
+  - rewrite Hlt. exact ltb_irrefl.
+  - rewrite Hlt. exact ltb_trans.
+  - rewrite Hlt. exact ltb_negtrans.
+  - rewrite Hlt. destruct Hm as [-> | ->]; exact eqb_nlt.
+  - intros va vb md sa sb sx _ _ _. destruct Hm as [-> | ->]; [apply single_reducible|apply complete_reducible]; exact ltb_irrefl.
+  - destruct Hm as [-> | ->]; cbn [sel_crit]; [apply min_sym|apply max_sym]; apply cell_or_sym.
+  - intros X A B va vb md Ha Hb _. destruct Hm as [-> | ->]; cbn [sel_crit kops_of k_upd] in *.
+    + exact (@min_merge T (f_ltb F) ltb_trans ltb_negtrans _ X A B va vb Ha Hb).
+    + exact (@max_merge T (f_ltb F) ltb_trans ltb_negtrans _ X A B va vb Ha Hb).
+  - apply sizes_irrelevant_of.
+  - intros A B v w. rewrite Hlt. apply sel_crit_fun.
+  - destruct Hm as [-> | ->]; reflexivity.
+  - rewrite Hsq. exact HM0.
+  - exact Hn.
+  - intros x y v Hxy Hx Hy Hv.
+    destruct Hm as [-> | ->]; cbn [sel_crit]; (split;
+      [exists x, y; cbn [leaves]; split; [left; reflexivity|]; split; [left; reflexivity|]; unfold cell_or; rewrite Hv; reflexivity
+      |intros x' y' [<-|[]] [<-|[]]; unfold cell_or; rewrite Hv; apply ltb_irrefl]).
+  - exact Hp.
+  - exact Hc.
+  - exact HDp.
+  - exact HDc.
+  - intros x y. rewrite !Hrt. auto.
+  - exact Hstrict.
+  - split; [exact HL|]. intros i t t' Ht Ht'. destruct (HS i t t' Ht Ht') as (E1 & E2 & E3 & h & h' & Eh & Eh' & Hv).
+    split; [exact E1|]. split; [exact E2|]. split; [exact E3|]. rewrite Eh, Eh', !Hrt. rewrite Hlt in Hv. exact Hv.
+Qed.
+
 End Sel.
 
 (* ---- exact rational arithmetic ---- *)
@@ -136,6 +189,44 @@ Proof.
            (@crit_of_fun meth M0)
            s1 d1 s2 d2 m n sp dp mp sc dc mc M0 HM0
            ltac:(intros x y v Hxy _ _ Hv; apply crit_of_leaf; assumption) Hp Hc HDp HDc).
+Qed.
+
+Lemma qeqb_nlt (a b : Q) : f_eqb QF a b = true -> f_ltb QF b a = false.
+Proof.
+  cbn [QF f_eqb f_ltb]. intros H. apply Qeq_bool_iff in H. apply negb_false_iff. apply Qle_bool_iff. rewrite H. apply Qle_refl.
+Qed.
+
+Theorem Q_nnchain_primitive_same_dendrogram meth s1 d1 s2 d2 (m : list Q) n sp dp mp sc dc mc M0 :
+  meth = Average \/ meth = Weighted \/ meth = Ward ->
+  prologue p (square_all (KQ meth) m) n = Ok M0 -> (1 <= m_obs M0)%nat ->
+  primitive_with (KQ meth) p meth s1 d1 m n = Ok (sp, dp, mp) ->
+  nnchain_with (KQ meth) p meth s2 d2 m n = Ok (sc, dc, mc) ->
+  distinct_from (KQ meth) (prim_iter (KQ meth) p meth) 0 (m_obs M0 - 1)
+    (st_reset (KQ meth) s1 (m_obs M0)) (d_reset d1 (m_obs M0)) M0 ->
+  distinct_from (KQ meth) (chain_iter (KQ meth) p meth) 0 (m_obs M0 - 1)
+    (st_with_chain (st_reset (KQ meth) s2 (m_obs M0)) []) (d_reset d2 (m_obs M0)) M0 ->
+  (forall x y, f_ltb QF (k_rt (KQ meth) x) (k_rt (KQ meth) y) = true -> f_ltb QF x y = true) ->
+  strictly_lt (KQ meth) (heights dp) ->
+  length (d_steps dp) = length (d_steps dc)
+  /\ forall i t t', nth_error (d_steps dp) i = Some t -> nth_error (d_steps dc) i = Some t' ->
+       s_c1 t = s_c1 t' /\ s_c2 t = s_c2 t' /\ s_size t = s_size t'
+       /\ exists h h', s_dis t = k_rt (KQ meth) h /\ s_dis t' = k_rt (KQ meth) h' /\ eqv (f_ltb QF) h h'.
+Proof.
+  intros Hm HM0 Hn Hp Hc HDp HDc Hrt Hstrict.
+  assert (Hlt : k_ltb (KQ meth) = f_ltb QF) by (destruct meth; reflexivity).
+  assert (Heqb : k_eqb (KQ meth) = f_eqb QF) by (destruct meth; reflexivity).
+  rewrite <- Hlt.
+  apply (@nnchain_primitive_same_dendrogram Q (KQ meth) p meth qlt_irrefl qlt_trans qlt_negtrans
+           ltac:(rewrite Heqb, Hlt; exact qeqb_nlt)
+           (q_reducible rt Hm) (crit_of meth M0) (@crit_of_sym meth M0)
+           ltac:(intros X A B va vb md Ha Hb Hmd; cbn [kops_of k_upd]; rewrite upd_QFr; apply crit_of_merge; assumption)
+           ltac:(intros E va vb md sa sb sa' sb' sx; cbn [kops_of k_upd]; rewrite !upd_QFr;
+                 destruct meth; try discriminate; reflexivity)
+           (@crit_of_fun meth M0)
+           ltac:(destruct Hm as [-> | [-> | ->]]; reflexivity)
+           s1 d1 s2 d2 m n sp dp mp sc dc mc M0 HM0 Hn
+           ltac:(intros x y v Hxy _ _ Hv; apply crit_of_leaf; assumption) Hp Hc HDp HDc
+           ltac:(rewrite Hlt; exact Hrt) Hstrict).
 Qed.
 
 End QRuns.
